@@ -17,7 +17,7 @@ from . import common
 
 ID = "C10"
 RUNS = {"quick": 9000, "thorough": 500000}
-TIME = {"quick": 75, "thorough": 1500}
+TIME = {"quick": 150, "thorough": 1500}
 RULES = ("STV", "STV", "IRV", "SequentialRCV", "Plurality", "SNTV", "Borda", "TopTwo", "Alaska", "Alaska", "CondoBorda", "CondoBorda",
          "DominatingSets", "GeneralRating", "Rating", "Limited", "Cumulative", "Approval", "BlocPlurality")
 RULE_TEXT = (
@@ -69,8 +69,45 @@ def gen_late_top_tie(rng):
     return None
 
 
+def gen_shared_first_place(rng):
+    """Borda election whose boundary tie has to be broken by first-place votes while some ballot ties a tied candidate with an
+    outsider in its first position (the shared first place counts 1/2 for each, not 1 for the tied candidate alone)."""
+    for _ in range(300):
+        n = rng.randint(3, 4)
+        names = list(G.NAME_FAMILIES["plain"][:n])
+        bs = []
+        for _i in range(rng.randint(3, 4)):
+            perm = rng.sample(names, n)
+            r = [[c] for c in perm]
+            if rng.random() < 0.5:
+                r = [sorted(perm[:2])] + r[2:]
+            bs.append({"r": r, "w": str(rng.randint(1, 5))})
+        jp = {"candidates": names, "ballots": bs}
+        m = rng.randint(1, n - 1)
+        sc = RS.borda(jp)
+        order = sorted(names, key=lambda c: -sc[c])
+        if sc[order[m - 1]] != sc[order[m]]:
+            continue
+        T = {c for c in names if sc[c] == sc[order[m]]}
+        f = RS.fpv(jp)
+        if len({f[c] for c in T}) < 2:
+            continue
+        if not any(len(b["r"][0]) == 2 and len(set(b["r"][0]) & T) == 1 for b in bs):
+            continue
+        rng.shuffle(names)
+        return {"rule": "Borda", "kw": {"m": m, "tiebreak": "first_place"}, "profile": {"candidates": names, "ballots": bs},
+                "shape": {"n": n, "nb": len(bs), "law": "shared-first-place", "names": "plain", "wfam": "small"}}
+    return None
+
+
 def generate(run_seed, tier):
     rng = stream(run_seed, "gen")
+    if rng.random() < 0.03:
+        c = gen_shared_first_place(rng)
+        if c is not None:
+            c["policies"] = common.gen_policies(rng, run_seed)
+            c["history"] = False
+            return c
     if rng.random() < 0.04:
         c = gen_late_top_tie(rng)
         if c is not None:
@@ -375,10 +412,11 @@ def execute(case, trace=False):
         voted = {c for b in jp["ballots"] for g in (b.get("r") or []) for c in g} | {c for b in jp["ballots"] for c in (b.get("s") or {})}
         variants = []
         extra = [c for c in ("Zz", "Zy") if c not in jp["candidates"]][:1]
-        variants.append(dict(jp, candidates=list(jp["candidates"]) + extra))
+        explicit = {k: v for k, v in jp.items() if k != "infer"}  # a changed candidate list must be passed explicitly, never inferred
+        variants.append(dict(explicit, candidates=list(jp["candidates"]) + extra))
         trimmed = [c for c in jp["candidates"] if c in voted]
         if 0 < len(trimmed) < len(jp["candidates"]):
-            variants.append(dict(jp, candidates=trimmed))
+            variants.append(dict(explicit, candidates=trimmed))
         variants.append(jp)  # and the original once more, after the others
         for vj in variants:
             n_c = len(vj["candidates"])
